@@ -1,4 +1,22 @@
-/* /verif/harness/zone.c - ghost state and property lemmas for the zone kernel */
+/* /verif/harness/zone.c - ghost state, lemma proofs and property lemmas for the zone kernel */
 size_t gz_i;
 size_t gz_j;
+size_t gz_k;
 size_t gz_hint;
+#pragma CPROVER check push
+#pragma CPROVER check disable "signed-overflow"
+#pragma CPROVER check disable "conversion"
+void pl_lemma_epoch(void)
+{
+  REVEAL_VALIDD(1970, 1, 1); REVEAL_DAYORD(1970, 1, 1);
+  __CPROVER_assert(lemma_epoch_ENS(), "lemma_epoch.ENS");
+}
+void pl_lemma_secrepr(void)
+{
+  Z u; __CPROVER_assume(lemma_secrepr_REQ(u));
+  USE(lemma_dm_range_REQ(u), lemma_dm_range_ENS(u), "dm_range(u)");
+  USE(lemma_dm_range_REQ(FD60(u)), lemma_dm_range_ENS(FD60(u)), "dm_range(u/60)");
+  USE(lemma_dm_range_REQ(FD60(FD60(u))), lemma_dm_range_ENS(FD60(FD60(u))), "dm_range(u/3600)");
+  __CPROVER_assert(lemma_secrepr_ENS(u), "lemma_secrepr.ENS");
+}
+#pragma CPROVER check pop
